@@ -42,7 +42,7 @@ func plans() map[string][]streamPlan {
 		"C09": {{"fn", 40000, 800000}, {"expr", 5000, 100000}, {"edge", edgeCount(), edgeCount()}, {"fnseq", 6000, 100000}, {"pairs", pairCount(), pairCount()}},
 		"C10": {{"fnmatrix", matrixCount(3), matrixCount(4)}, {"fnseq", 15000, 300000}, {"expr", 5000, 100000}, {"pairs", 60000, pairCount()}},
 		"C11": {{"errctx", errCtxCount(true), errCtxCount(true)}, {"expr", 8000, 300000}, {"proj", 4000, 100000}, {"pairs", pairCount(), pairCount()}},
-		"C13": {{"api", 3000, 120000}, {"expr", 4000, 100000}, {"pairs", 40000, pairCount()}},
+		"C13": {{"api", 3000, 120000}, {"expr", 4000, 100000}, {"pairs", 40000, pairCount()}, {"typed", 1500, 60000}},
 		"C14": {{"ident", identExhaustive(2) + 8000, identExhaustive(2) + 300000}, {"unquoted", unquotedCount(), unquotedCount()}, {"spelling", 5000, 100000}, {"jsoncodec", 4000, 100000}, {"edge", edgeCount(), edgeCount()}},
 		"C15": {{"pipe", 15000, 400000}, {"subst", 10000, 300000}, {"depth", depthCount(), depthCount()}, {"pairs", pairCount(), pairCount()}},
 		"C16": {{"jsonish", 4000, 100000}, {"expr", 15000, 300000}, {"fn", 10000, 200000}, {"jsoncodec", 3000, 100000}, {"edge", edgeCount(), edgeCount()}, {"pairs", pairCount(), pairCount()}},
